@@ -127,6 +127,12 @@ func VerifC20Foreign(h *verifh.H) {
 	h.Assert(os.MkdirAll(location, 0o700) == nil, "mkdir")
 	h.Assert(os.WriteFile(location+"/"+StorageIDFileName, []byte("some-other-store"), 0o644) == nil, "foreign id file")
 	h.Assert(os.WriteFile(location+"/datahub-backup.kv", []byte("foreign backup"), 0o644) == nil, "foreign backup file")
+	if h.Choice("foreignCursor", 2) == 1 {
+		// the other store completed native backup runs there: its cursor file exists too
+		cur := make([]byte, 8)
+		cur[0] = byte(1 + h.Choice("cursor", 3))
+		h.Assert(os.WriteFile(location+"/datahub-backup.lastseen", cur, 0o644) == nil, "foreign cursor file")
+	}
 	bm := vNewBackupManager(h, hub, location)
 	_ = vRun(bm)
 	b, err := os.ReadFile(location + "/datahub-backup.kv")
